@@ -376,4 +376,222 @@ theorem matchStep_inv (opts : Opts) (st : Static) (D : Defs) (nodes : List AstNo
         · cases h2
   | _ => simp only [matchStep]; exact neutral (fun _ _ hh => by cases hh) rfl
 
+theorem matchAll_inv (opts : Opts) (st : Static) (D : Defs) (nodes : List AstNode) (har : AR D nodes) :
+    ∀ (rest pre : List AstNode) (acc : Defs × List String × List String), nodes = pre ++ rest → MInv st D pre acc →
+      MInv st D nodes (rest.foldl (matchStep opts st.decls) acc) := by
+  intro rest
+  induction rest with
+  | nil => intro pre acc hs h; have : pre = nodes := by rw [hs]; simp
+           rw [← this]; exact h
+  | cons n rest ih =>
+    intro pre acc hs h
+    rw [List.foldl_cons]
+    exact ih (pre ++ [n]) _ (by rw [hs]; simp) (matchStep_inv opts st D nodes har pre n rest hs acc h)
+
+theorem minv_init (st : Static) (D : Defs) (har_fresh : ∀ ref, (D.instrs.getD ref default).resolved = false) :
+    MInv st D [] (D, [], []) :=
+  ⟨rfl, rfl, rfl, har_fresh, rfl, fun _ _ => rfl, fun pre1 _ _ _ hs => by cases pre1 <;> cases hs⟩
+
+/-- the positional facts of `FrontOK` that `define_remaining` and `match_all` establish -/
+theorem matchAll_facts (opts : Opts) (st : Static) (D : Defs) (nodes : List AstNode) (har : AR D nodes) (d0 : Defs)
+    (h0 : d0 = (matchAll opts st.decls D nodes).1) :
+    d0.symbols = D.symbols ∧ d0.ruledefs = D.ruledefs ∧
+    (∀ ref, (d0.instrs.getD ref default).resolved = false) ∧ (∀ ref, (d0.datas.getD ref default).resolved = false) ∧
+    (∀ pre src ref post pre' src' post', nodes = pre ++ .instr src (some ref) :: post →
+      nodes = pre' ++ .instr src' (some ref) :: post' → ctxAfter st [] pre' = ctxAfter st [] pre) ∧
+    (∀ pre src ref post, nodes = pre ++ .instr src (some ref) :: post → (d0.instrs.getD ref default).known = true →
+      ∀ c ∈ (d0.instrs.getD ref default).cands, matchKnown st.decls d0 (ctxAfter st [] pre) 64 c.m = true) ∧
+    (∀ pre sz es refs post k, nodes = pre ++ .data sz es refs :: post → k < es.length →
+      (d0.datas.getD (refs.getD k 0) default).known = true → staticallyKnown pureP (es.getD k default) = true) ∧
+    (∀ pre sz es refs post k pre' sz' es' refs' post' k', nodes = pre ++ .data sz es refs :: post →
+      nodes = pre' ++ .data sz' es' refs' :: post' → k < es.length → k' < es'.length → refs.getD k 0 = refs'.getD k' 0 →
+      sz' = sz ∧ es'.getD k' default = es.getD k default) := by
+  rw [matchAll_eq] at h0
+  simp only at h0
+  have inv := matchAll_inv opts st D nodes har nodes [] (D, [], []) rfl (minv_init st D har.ifresh)
+  subst h0
+  refine ⟨inv.syms, inv.rd, inv.fresh, fun ref => by rw [inv.datas]; exact har.dfresh ref, ?_, ?_, ?_, ?_⟩
+  · intro pre src ref post pre' src' post' hs hs'
+    rw [ar_instrPos D nodes har pre src ref post pre' src' post' hs hs']
+  · intro pre src ref post hs hk c hc
+    have := inv.known pre src ref post hs hk c hc
+    rw [(matchKnown_congr st.decls D _ inv.rd (fun r => by rw [sym_of_symbols_eq inv.syms r]) _ 64).1]
+    exact this
+  · intro pre sz es refs post k hs hk hkn
+    obtain ⟨r1, r2⟩ := har.dpos pre sz es refs post hs
+    have g1 : refs.getD k 0 = countD pre + k := by
+      rw [r1]; simp [List.getD_eq_getElem?_getD, List.getElem?_map, List.getElem?_range hk]; omega
+    rw [inv.datas, g1, r2 k hk] at hkn
+    exact hkn
+  · intro pre sz es refs post k pre' sz' es' refs' post' k' hs hs' hk hk' hr
+    exact ar_dataPos D nodes har pre sz es refs post k pre' sz' es' refs' post' k' hs hs' hk hk' hr
+
+/-! ## the declaration loop never touches instructions and data -/
+
+theorem defineSymbols_items (defs : Defs) (nodes : List AstNode) :
+    (defineSymbols defs nodes).instrs = defs.instrs ∧ (defineSymbols defs nodes).datas = defs.datas := by
+  unfold defineSymbols
+  induction nodes generalizing defs with
+  | nil => exact ⟨rfl, rfl⟩
+  | cons n rest ih =>
+    rw [List.foldl_cons]
+    have step : ∀ (x : Defs), x.instrs = defs.instrs ∧ x.datas = defs.datas →
+        (rest.foldl (fun defs n => match n with
+          | .symbol _ _ kind ne (some r) =>
+            if ((defs.symbols.getD r none).isSome) then defs
+            else
+              let known := match kind with
+                | .constant e => staticallyKnown { queryFunction := asmBuiltinKnown } e
+                | .label => false
+              { defs with symbols := (padTo defs.symbols r none).set r (some { noEmit := ne, known := known }) }
+          | _ => defs) x).instrs = defs.instrs ∧ _ := fun x hx => by
+      have := ih x
+      exact ⟨this.1.trans hx.1, this.2.trans hx.2⟩
+    apply step
+    split
+    · split <;> exact ⟨rfl, rfl⟩
+    · exact ⟨rfl, rfl⟩
+
+theorem resolveConstantsSimple_items (opts : Opts) (d : Decls) (defs defs' : Defs) (nodes : List AstNode) (c : Nat)
+    (h : resolveConstantsSimple opts d defs nodes = .ok (defs', c)) : defs'.instrs = defs.instrs ∧ defs'.datas = defs.datas := by
+  unfold resolveConstantsSimple at h
+  have key : ∀ (l : List AstNode) (acc : Except String (Defs × Nat)) (defs' : Defs) (c : Nat),
+      (∀ x k, acc = .ok (x, k) → x.instrs = defs.instrs ∧ x.datas = defs.datas) →
+      l.foldl (fun acc n =>
+        match acc with
+        | .error e => .error e
+        | .ok (defs, count) =>
+          match n with
+          | .symbol _ _ (.constant e) _ (some r) =>
+            let s := defs.sym r
+            if s.resolved then .ok (defs, count + 1)
+            else
+              let fullName := (d.symbols.decls.getD r default).name
+              match opts.defines.find? (·.1 == fullName) with
+              | some dv => .ok (defs.setSym r { s with value := dv.2, resolved := true }, count + 1)
+              | none =>
+                match evalSimple d defs e with
+                | .error m => .error m
+                | .ok v =>
+                  let s' := { s with value := v }
+                  match v with
+                  | .unknown => .ok (defs.setSym r s', count)
+                  | _ =>
+                    if opts.optStatic && s.known then .ok (defs.setSym r { s' with resolved := true }, count + 1)
+                    else .ok (defs.setSym r s', count + 1)
+          | _ => .ok (defs, count)) acc = .ok (defs', c) → defs'.instrs = defs.instrs ∧ defs'.datas = defs.datas := by
+    intro l
+    induction l with
+    | nil => intro acc defs' c hacc h; exact hacc defs' c h
+    | cons n rest ih =>
+      intro acc defs' c hacc h
+      rw [List.foldl_cons] at h
+      refine ih _ defs' c ?_ h
+      intro x k hx
+      cases acc with
+      | error e => cases hx
+      | ok y =>
+        obtain ⟨y1, y2⟩ := y
+        have hy := hacc y1 y2 rfl
+        simp only at hx
+        repeat' (first | (split at hx))
+        all_goals first
+          | (cases hx; done)
+          | (injection hx with hx; injection hx with h1 _; rw [← h1]; exact hy)
+  exact key nodes (.ok (defs, 0)) defs' c (fun x k hx => by injection hx with hx; injection hx with h1 _; rw [← h1]; exact ⟨rfl, rfl⟩) h
+
+theorem declLoop_items (opts : Opts) : ∀ (fuel : Nat) (d : Decls) (defs : Defs) (nodes : List AstNode) (prev : Nat)
+    (d' : Decls) (defs' : Defs) (nodes' : List AstNode),
+    declLoop opts fuel d defs nodes prev = .ok (d', defs', nodes') → defs'.instrs = defs.instrs ∧ defs'.datas = defs.datas := by
+  intro fuel
+  induction fuel with
+  | zero => intro d defs nodes prev d' defs' nodes' h; simp [declLoop] at h
+  | succ f ih =>
+    intro d defs nodes prev d' defs' nodes' h
+    simp only [declLoop] at h
+    cases hc : collectAll d nodes with
+    | error e => rw [hc] at h; cases h
+    | ok x =>
+      obtain ⟨d1, n1⟩ := x
+      rw [hc] at h
+      simp only at h
+      have h1 := defineSymbols_items defs n1
+      cases hr : resolveConstantsSimple opts d1 (defineSymbols defs n1) n1 with
+      | error e => rw [hr] at h; cases h
+      | ok y =>
+        obtain ⟨defs2, cnt⟩ := y
+        rw [hr] at h
+        simp only at h
+        have h2 := resolveConstantsSimple_items opts d1 _ defs2 n1 cnt hr
+        split at h
+        · cases h
+        · split at h
+          · injection h with h; injection h with _ h; injection h with h3 _
+            rw [← h3]; exact ⟨h2.1.trans h1.1, h2.2.trans h1.2⟩
+          · have := ih _ _ _ _ _ _ _ h
+            exact ⟨this.1.trans (h2.1.trans h1.1), this.2.trans (h2.2.trans h1.2)⟩
+
+theorem defineRemaining_ar (d : Decls) (defs defs' : Defs) (nodes nodes' : List AstNode)
+    (hi : defs.instrs = []) (hd : defs.datas = [])
+    (h : defineRemaining d defs nodes = .ok (defs', nodes')) : AR defs' nodes' := by
+  unfold defineRemaining at h
+  simp only [bind, Except.bind] at h
+  split at h
+  · cases h
+  · split at h
+    · cases h
+    · simp only [pure, Except.pure] at h
+      injection h with h
+      injection h with h1 h2
+      rw [← h1, ← h2]
+      exact foldl_assignRef_ar nodes _ [] (ar_init _ hi hd)
+
+/-- **`define_remaining` and `match_all` establish the positional facts of `FrontOK`** -/
+theorem frontEnd_positional (opts : Opts) (fs : SrcFiles) (roots : List (List Char)) (st : Static) (nodes : List AstNode) (defs0 : Defs)
+    (h : frontEnd opts fs roots = .ok (st, nodes, defs0)) :
+    (∀ ref, (defs0.instrs.getD ref default).resolved = false) ∧ (∀ ref, (defs0.datas.getD ref default).resolved = false) ∧
+    (∀ pre src ref post pre' src' post', nodes = pre ++ .instr src (some ref) :: post →
+      nodes = pre' ++ .instr src' (some ref) :: post' → ctxAfter st [] pre' = ctxAfter st [] pre) ∧
+    (∀ pre src ref post, nodes = pre ++ .instr src (some ref) :: post → (defs0.instrs.getD ref default).known = true →
+      ∀ c ∈ (defs0.instrs.getD ref default).cands, matchKnown st.decls defs0 (ctxAfter st [] pre) 64 c.m = true) ∧
+    (∀ pre sz es refs post k, nodes = pre ++ .data sz es refs :: post → k < es.length →
+      (defs0.datas.getD (refs.getD k 0) default).known = true → staticallyKnown pureP (es.getD k default) = true) ∧
+    (∀ pre sz es refs post k pre' sz' es' refs' post' k', nodes = pre ++ .data sz es refs :: post →
+      nodes = pre' ++ .data sz' es' refs' :: post' → k < es.length → k' < es'.length → refs.getD k 0 = refs'.getD k' 0 →
+      sz' = sz ∧ es'.getD k' default = es.getD k default) := by
+  unfold frontEnd at h
+  split at h
+  · cases h
+  · rename_i d defsR nodesR hp
+    split at h
+    rename_i defsM rep hm
+    split at h
+    · cases h
+    · injection h with h; injection h with h1 h2
+      injection h2 with h2 h3
+      subst h1 h2 h3
+      -- the state that enters `match_all` satisfies the numbering invariant
+      have har : AR defsR nodesR := by
+        unfold frontEndPre at hp
+        split at hp
+        · cases hp
+        · split at hp
+          · cases hp
+          · simp only at hp
+            split at hp
+            · cases hp
+            · rename_i d2 defs2 nodes2 hl
+              split at hp
+              · cases hp
+              · split at hp
+                · cases hp
+                · rename_i defs3 nodes3 hdr
+                  injection hp with hp; injection hp with _ hp; injection hp with h4 h5
+                  subst h4 h5
+                  have := declLoop_items opts _ _ _ _ _ _ _ _ hl
+                  exact defineRemaining_ar _ defs2 _ nodes2 _ this.1 this.2 hdr
+      have hm' : defsM = (matchAll opts d defsR nodesR).1 := by rw [hm]
+      have facts := matchAll_facts opts ⟨opts, d, roots.headD [], fs⟩ defsR nodesR har defsM hm'
+      exact ⟨facts.2.2.1, facts.2.2.2.1, facts.2.2.2.2.1, facts.2.2.2.2.2.1, facts.2.2.2.2.2.2.1, facts.2.2.2.2.2.2.2⟩
+
 end Casm
